@@ -145,9 +145,9 @@ def _sum_range(rng: ast.Call) -> ast.AST:
     start, end, step = _get_range_start_end(rng)
 
     if not core.match_template(step, ast.Constant(value=1)):
-        return rng
+        raise ValueError("Only a range with step 1 has this closed form")
 
-    if core.match_template(end, ast.Constant(value=0)):
+    if core.match_template(start, ast.Constant(value=0)):
         return _sum_int_squares_to(end)
 
     return ast.BinOp(left=_sum_int_squares_to(end), op=ast.Sub(), right=_sum_int_squares_to(start))
